@@ -13,7 +13,7 @@ conversion for the verb; everything else is `.unmodelled`.
 -/
 import CtyModel.Stdlib.Glue
 namespace CtyModel
-namespace Stdlib
+namespace StdNum
 
 structure Verb where
   raw : List Char          -- data[ts:te], from '%' to the mode letter
@@ -183,5 +183,5 @@ def formatImpl (L : Lib) (args : List Value) : Res Value := do
     let out ← fsmLoop L rest (fs.length + 1) fs.toList 0 1 0 ""
     pure (stringVal L.nfc out)
 
-end Stdlib
+end StdNum
 end CtyModel
